@@ -898,22 +898,73 @@ def build_multi_recipe(case, ref, extra):
 
 
 def multi_plan(case):
-    """[(table, role, fn, executions or rows)] : what each consumer of the file has to emit"""
+    """[(table, role, fn, executions or rows, field prefix)] : what each consumer of the file has to emit"""
     n = len(case["ds"]["rows"])
     reps = case["reps"]
     if case["shape"] == "parallel":
-        return [(f"C{i}", "site", c["fn"], reps * c["q"]) for i, c in enumerate(case["consumers"])]
+        return [(f"C{i}", "site", c["fn"], reps * c["q"], "s0c") for i, c in enumerate(case["consumers"])]
+    if case["shape"] == "shared_line":
+        if case["variant"] == "flow":
+            # two identical flow-style blocks on ONE source line of one template
+            return [("C0", "site", case["fn"], reps * case["q"], "s0c"), ("C0", "site", case["fn"], reps * case["q"], "s1c")]
+        return [(f"C{i}", "site", case["fn"], reps * c["p"] * c["q"], "s0c") for i, c in enumerate(case["consumers"])]
     if case["shape"] == "site_fe":
-        return [("O", "site", case["site_fn"], reps * case["p"]), ("F", "for_each", case["inner_fn"], reps * case["p"])]
-    return [("O", "for_each", case["outer_fn"], reps), ("F", "for_each", case["inner_fn"], reps * n)]
+        return [("O", "site", case["site_fn"], reps * case["p"], "s0c"),
+                ("F", "for_each", case["inner_fn"], reps * case["p"], "c")]
+    return [("O", "for_each", case["outer_fn"], reps, "c"), ("F", "for_each", case["inner_fn"], reps * n, "c")]
+
+
+def build_shared_line_recipe(case, ref, extra):
+    """The dataset call sites of all consumers come from ONE source line: a macro included by 2-3
+    templates (top-level / nested / friend; macro in the recipe or in an included file), or two
+    identical flow-style function blocks written on one line.  Returns (recipe text, extra files)."""
+    lines, files = [], {}
+    if case["dialect"] == 3:
+        lines.append("- snowfakery_version: 3")
+    lines.append("- plugin: snowfakery.standard_plugins.datasets.Dataset")
+    cols = case["cols"]
+    fn = case["fn"]
+    if case["variant"] == "flow":
+        kw = f"dataset: {ref}" + (f", table: {extra['table']}" if "table" in extra else "")
+        block = f"{{Dataset.{fn}: {{{kw}}}}}"
+        parts = [f"__row0: {block}", f"__row1: {block}"]
+        for s_ in (0, 1):
+            for ci, col in enumerate(cols):
+                parts.append(f's{s_}c{ci}: "${{{{__row{s_}.{col}}}}}"')
+        lines += ["- object: C0", f"  count: {case['q']}", "  fields: {" + ", ".join(parts) + "}"]
+        return "\n".join(lines) + "\n", files
+    macro = ["- macro: dsm", "  fields:"] + ["    " + ln for ln in _site_fields(fn, ref, extra, cols)]
+    if case.get("macro_in_file"):
+        files["lib.recipe.yml"] = "\n".join(macro) + "\n"
+        lines.append("- include_file: lib.recipe.yml")
+    else:
+        lines += macro
+    for i, c in enumerate(case["consumers"]):
+        head = [f"count: {c['q']}", "include: dsm"]
+        if c["place"] == "top":
+            lines += _template(f"C{i}", 0, head, ["tag: c"])
+        elif c["place"] == "nested":
+            child = _template(f"C{i}", 6, head, ["tag: c"])
+            lines += _template(f"P{i}", 0, [f"count: {c['p']}"], ["tag: p", "child:"] + [ln[4:] for ln in child])
+        else:
+            friend = _template(f"C{i}", 4, head, ["tag: c"])
+            lines += _template(f"P{i}", 0, [f"count: {c['p']}"], ["tag: p"], friends=friend)
+    return "\n".join(lines) + "\n", files
 
 
 def run_multi_case(case, folder):
     ds = case["ds"]
     ref, extra = materialize(ds, folder)
-    text = build_multi_recipe(case, ref, extra)
+    if case["shape"] == "shared_line":
+        text, files = build_shared_line_recipe(case, ref, extra)
+        for name, content in files.items():
+            with open(os.path.join(folder, name), "w", encoding="utf-8") as f:
+                f.write(content)
+    else:
+        text = build_multi_recipe(case, ref, extra)
     n = len(ds["rows"])
-    expected = sum(cnt * (n if role == "for_each" else 1) for _, role, _, cnt in multi_plan(case))
+    expected = sum(cnt * (n if role == "for_each" else 1) for _, role, _, cnt, _ in multi_plan(case))
+    expected += sum(case["reps"] * c.get("p", 0) for c in case.get("consumers", []) if isinstance(c, dict))
     with instrument(case["seed"]) as log:
         res = run_generate(text, reps=case["reps"], row_cap=expected * 2 + 50, folder=folder)
     tables = {}
@@ -922,11 +973,10 @@ def run_multi_case(case, folder):
     return {"outcome": res.outcome, "error": res.error, "tables": tables, "passes": passes_by_iterator(log), "recipe": text}
 
 
-def oracle_consumer(rep, case, rows, fn, label):
+def oracle_consumer(rep, case, rows, fn, label, prefix="s0c"):
     """ONE site consumer, looked at alone: iterate -> record k mod n; shuffle -> every cycle of n of
     THIS consumer is a permutation of the file (whatever the other consumers of the file do)."""
     n = len(case["ds"]["rows"])
-    prefix = "s0c"
     if fn == "iterate":
         for k, row in enumerate(rows):
             bad = row_matches_record(row, prefix, case, k % n)
@@ -960,6 +1010,10 @@ def oracle_consumer(rep, case, rows, fn, label):
 
 def oracle_multi(rep, case, real):
     what = f"{case['shape']} consumers of one {case['ds']['kind']} file with {len(case['ds']['rows'])} records"
+    if case["shape"] == "shared_line":
+        what = (f"call sites parsed from one source line ({case['variant']}"
+                + (", macro in an included file" if case.get("macro_in_file") else "")
+                + f") over one {case['ds']['kind']} file with {len(case['ds']['rows'])} records: every consumer must iterate on its own from record 0")
     if real["outcome"].startswith("does_not_stop"):
         rep.violation("C17:does-not-stop", f"run did not finish: {what}", case, "termination", real["outcome"])
         return
@@ -967,14 +1021,14 @@ def oracle_multi(rep, case, real):
         rep.violation("C17:unexpected-error", f"run failed: {what}", case, "ok", [real["outcome"], real["error"]])
         return
     n = len(case["ds"]["rows"])
-    for table, role, fn, cnt in multi_plan(case):
+    for table, role, fn, cnt, prefix in multi_plan(case):
         rows = real["tables"].get(table, [])
-        label = f"{what}: consumer {table} (Dataset.{fn}, {role})"
+        label = f"{what}: consumer {table}/{prefix[:2]} (Dataset.{fn}, {role})"
         if role == "site":
             if len(rows) != cnt:
                 rep.violation("C17:consumer-row-count", f"{label}: {len(rows)} rows, expected {cnt}", case, cnt, len(rows))
                 return
-            if not oracle_consumer(rep, case, rows, fn, label):
+            if not oracle_consumer(rep, case, rows, fn, label, prefix):
                 return
         else:
             tmp = common.Report("C17")
@@ -993,7 +1047,7 @@ def multi_model_requests(case, real):
     plan = multi_plan(case)
     # creation order of the iterator objects
     roles = []
-    if case["shape"] == "parallel":
+    if case["shape"] in ("parallel", "shared_line"):
         roles = list(range(len(plan)))
     elif case["shape"] == "site_fe":
         roles = [0] + [1] * plan[1][3]
@@ -1003,7 +1057,7 @@ def multi_model_requests(case, real):
     if len(its) != len(roles):
         return None, None
     reqs, codes = [], []
-    for ci, (table, role, fn, cnt) in enumerate(plan):
+    for ci, (table, role, fn, cnt, prefix) in enumerate(plan):
         mine = [its[i] for i, r in enumerate(roles) if r == ci]
         rows = real["tables"].get(table, [])
         if role == "site":
@@ -1011,7 +1065,7 @@ def multi_model_requests(case, real):
             if src is None:
                 return None, None
             reqs.append(dict(src, m="c17.consume", repeat=True, count=cnt))
-            codes.append({"kind": "site", "rows": [row_record_index(r, "s0c", case) for r in rows], "error": False,
+            codes.append({"kind": "site", "rows": [row_record_index(r, prefix, case) for r in rows], "error": False,
                           "passes": len(mine[0])})
         else:
             mode = "linear" if fn == "iterate" else ("shuffle" if ds["kind"] == "csv" else "oracle")
@@ -1052,6 +1106,30 @@ def compare_multi(rep, case, codes, answers):
         elif val["a"] != c["a"] or val["b"] != c["b"]:
             rep.disagreement("c17.multi:interleave", case, val, c)
             return
+
+
+def gen_shared_line_case(rng):
+    """several consumers whose dataset call sites are parsed from ONE source line"""
+    ds = gen_dataset(rng, safe=True, n=rng.choice([2, 3, 3, 4, 4, 5, 6, 7]), kind="csv" if rng.random() < 0.8 else "sql")
+    n = len(ds["rows"])
+    cols = pick_cols(rng, ds)
+    case = {"kind": "multi", "shape": "shared_line", "ds": ds, "dialect": rng.choice([2, 3]), "cols": cols,
+            "fn": rng.choice(["iterate", "iterate", "shuffle"]), "reps": rng.choice([1, 2, 3]), "seed": rng.randrange(2**32)}
+
+    def off_multiple():
+        # row counts that are not multiples of the record count
+        return rng.choice([q for q in (1, 2, n - 1, n + 1, n + 2, 2 * n - 1, 2 * n + 1) if q >= 1 and q % n != 0] or [1])
+
+    if rng.random() < 0.3:
+        case.update(variant="flow", q=off_multiple())
+    else:
+        k = rng.choice([2, 2, 3])
+        consumers = []
+        for _ in range(k):
+            place = rng.choice(["top", "top", "nested", "friend"])
+            consumers.append({"place": place, "p": 1 if place == "top" else rng.choice([1, 2, 3]), "q": off_multiple()})
+        case.update(variant="macro", consumers=consumers, macro_in_file=rng.random() < 0.35)
+    return case
 
 
 def gen_multi_case(rng):
@@ -1233,8 +1311,12 @@ def check_cases(cases, rep, with_model=True):
         elif kind == "for_each":
             rep.count(f"for_each:{case['fn']}:{case['placement']}:repeat={case['repeat']}")
         elif kind == "multi":
-            fns = [c["fn"] for c in case.get("consumers", [])] or [case.get("site_fn") or case.get("outer_fn"), case.get("inner_fn")]
-            rep.count(f"multi:{case['shape']}:{'+'.join(sorted(fns))}")
+            if case["shape"] == "shared_line":
+                places = "+".join(c["place"] for c in case.get("consumers", [])) or "two-blocks"
+                rep.count(f"multi:shared_line:{case['variant']}{':file' if case.get('macro_in_file') else ''}:{case['fn']}:{places}")
+            else:
+                fns = [c["fn"] for c in case.get("consumers", [])] or [case.get("site_fn") or case.get("outer_fn"), case.get("inner_fn")]
+                rep.count(f"multi:{case['shape']}:{'+'.join(sorted(fns))}")
         elif kind == "update":
             rep.count(f"update:output={case.get('output', 'capture')}:reps={case['reps']}")
         if len(rep.violations) > nviol or not with_model:
@@ -1393,6 +1475,8 @@ def run(ctx, rep, findings):
         cases.append(gen_update_case(rng))
     for _ in range(ctx.scale(260, 2600)):
         cases.append(gen_multi_case(rng))
+    for _ in range(ctx.scale(160, 1600)):
+        cases.append(gen_shared_line_case(rng))
     # D16 family (repaired by bc0f717): update_key + CSV output stays generated as a regression stream
     for _ in range(ctx.scale(3, 20)):
         c = gen_update_case(rng)
